@@ -55,6 +55,10 @@ pub struct Votor<A: All2All> {
     timeout_sender: Sender<VotorTimeout>,
     /// [`All2All`] instance used to broadcast votes.
     all2all: Arc<A>,
+
+    /// Windows for which timeouts were scheduled (recorded for the external verification harness).
+    #[cfg(alpenglow_verif)]
+    verif_timeouts_set: std::sync::Mutex<Vec<Slot>>,
 }
 
 impl<A: All2All> Votor<A> {
@@ -96,6 +100,8 @@ impl<A: All2All> Votor<A> {
             timeout_receiver,
             timeout_sender,
             all2all,
+            #[cfg(alpenglow_verif)]
+            verif_timeouts_set: std::sync::Mutex::new(Vec::new()),
         };
         votor.set_timeouts(Slot::new(0));
         votor
@@ -314,6 +320,11 @@ impl<A: All2All> Votor<A> {
     /// Panics if `slot` is not the first slot of a window.
     fn set_timeouts(&self, slot: Slot) {
         assert!(slot.is_start_of_window());
+        #[cfg(alpenglow_verif)]
+        self.verif_timeouts_set
+            .lock()
+            .expect("lock is never poisoned")
+            .push(slot);
 
         trace!(
             "setting timeouts for slots {slot}-{}",
@@ -430,6 +441,42 @@ impl<A: All2All> Votor<A> {
     /// leader window of [`Self::highest_final_cert_slot`].
     fn prune(&mut self) {
         self.slots = self.slots.split_off(&self.first_unpruned_slot());
+    }
+}
+
+/// Direct access to the event handlers for the external verification harness.
+///
+/// The handlers are the same ones [`Votor::voting_loop`] dispatches to.
+#[cfg(alpenglow_verif)]
+impl<A: All2All> Votor<A> {
+    /// Handles a single event from Pool.
+    pub async fn verif_pool_event(&mut self, event: PoolEvent) {
+        self.handle_pool_event(event).await;
+    }
+
+    /// Handles a single event from Blockstore.
+    pub async fn verif_blockstore_event(&mut self, event: BlockstoreEvent) {
+        self.handle_blockstore_event(event).await;
+    }
+
+    /// Handles a single timeout for the given slot.
+    pub async fn verif_timeout(&mut self, slot: Slot, crashed_leader: bool) {
+        let event = if crashed_leader {
+            VotorTimeout::TimeoutCrashedLeader(slot)
+        } else {
+            VotorTimeout::Timeout(slot)
+        };
+        self.handle_timeout_event(event).await;
+    }
+
+    /// Returns and clears the windows for which timeouts were scheduled since the last call.
+    pub fn verif_take_timeouts_set(&self) -> Vec<Slot> {
+        std::mem::take(&mut *self.verif_timeouts_set.lock().expect("lock is never poisoned"))
+    }
+
+    /// Returns the slots for which voting state is retained.
+    pub fn verif_retained_slots(&self) -> Vec<Slot> {
+        self.slots.keys().copied().collect()
     }
 }
 
